@@ -190,7 +190,7 @@ def main():
         "setup_cmd": "./setup.sh",
         "hooks": {
             "guard": "verif",
-            "enable": "go build -tags verif -overlay <generated by lib/vlib.make_overlay from /repo's current tree> (virtual clock rewrite of time.Now(), add-only test constructors); no hook is committed to /repo",
+            "enable": "go build -tags verif -overlay <generated by lib/vlib.make_overlay from /repo's current tree> (virtual clock rewrite of time.Now(), add-only test constructors, an accessor for the key ids the SDK derives for a partition); no hook is committed to /repo",
             "baseline_off_cmd": json.load(open("/root/.vp/BASELINE.json"))["cmd"] if os.path.exists("/root/.vp/BASELINE.json") else "",
             "source_commits": [],
             "add_only": True,
